@@ -1014,6 +1014,10 @@ M('C09', 'permute_sites documents the inverse map (original defect)', MPS,
   "such that ``psi.permute_sites(perm)[perm[i]] = psi[i]``", "such that ``psi.permute_sites(perm)[i] = psi[perm[i]]``",
   'MPS-permute-direction')
 
+M('C07', 'TransferMatrix dtype from the first tensors only (original defect)', MPS,
+  "dtype = np.result_type(*[B.dtype for B in M + N])", "dtype = np.promote_types(M[0].dtype, N[0].dtype)",
+  'DTYPE-all-tensors')
+
 # ---------------------------------------------------------------- C16 / C19
 M('C16', 'GMRES restart: relative residual norm used for normalisation (round-3 seed b)', KRY,
   """        self.total_error.append([npc.norm(self.rs[-1]) / self.b_norm])
